@@ -252,11 +252,11 @@ func cloneSet(ps [][]byte) [][]byte {
 	return out
 }
 
-func execC16Tamper(h hash.Hash, n, i, seed uint64, kind string, a uint64, p *c16Pool) string {
+func execC16Tamper(h hash.Hash, leafOf func(seed, j uint64) []byte, n, i, seed uint64, kind string, a uint64, p *c16Pool) string {
 	t := merkletree.New(h)
 	t.SetIndex(i)
 	for j := uint64(0); j < n; j++ {
-		t.Push(p.sub(c16Leaf(seed, j)))
+		t.Push(p.sub(leafOf(seed, j)))
 	}
 	root, ps0, pi, nl := t.Prove()
 	root = append([]byte(nil), root...)
@@ -265,6 +265,9 @@ func execC16Tamper(h hash.Hash, n, i, seed uint64, kind string, a uint64, p *c16
 	}
 	ps := cloneSet(ps0)
 	junk := bytes.Repeat([]byte{0x5a}, 32)
+	if h.Size() != 32 || h.BlockSize() != 64 { // an algebraic hasher: a digest it can absorb
+		junk = c16Sum(h, root)
+	}
 	ns := uint64(0) // number of siblings
 	if len(ps) > 0 {
 		ns = uint64(len(ps) - 1)
@@ -318,6 +321,23 @@ func execC16Tamper(h hash.Hash, n, i, seed uint64, kind string, a uint64, p *c16
 		}
 	case "empty":
 		ps = nil
+	case "leafnc": // bytes an algebraic hasher cannot absorb (not a canonical field element / not whole blocks)
+		if len(ps) > 0 {
+			ps[0] = bytes.Repeat([]byte{0xff}, h.BlockSize())
+		}
+	case "sibnc":
+		if ns > 0 {
+			k := 1 + a%ns
+			ps[k] = bytes.Repeat([]byte{0xff}, len(ps[k]))
+		}
+	case "leaflen":
+		if len(ps) > 0 {
+			ps[0] = append(ps[0], 1, 1, 1)
+		}
+	case "rootnc":
+		if root != nil {
+			root = bytes.Repeat([]byte{0xff}, len(root))
+		}
 	case "collapse":
 		if i+1 == n && a > 0 && a <= ns {
 			sum := c16Sum(h, ps[0])
@@ -808,12 +828,16 @@ func execC16(a []string) string {
 		r := c16RootHex(t.Root())
 		return p.done(r + " " + r)
 	case a[0] == "acct" && len(a) == 7:
-		h := c16Hash(a[1])
+		h, lf := c16HashAny(a[1])
 		if h == nil {
 			return "bad-op"
 		}
 		p := &c16Pool{mode: c16Mode(a)}
-		return p.done(execC16Tamper(h, c16U(a[2]), c16U(a[3]), c16U(a[4]), a[5], c16U(a[6]), p))
+		return p.done(execC16Tamper(h, lf, c16U(a[2]), c16U(a[3]), c16U(a[4]), a[5], c16U(a[6]), p))
+	case a[0] == "accb" && len(a) == 6:
+		return execC16Bad(a[1], c16U(a[2]), c16U(a[3]), c16U(a[4]), parseBytes(a[5]))
+	case a[0] == "accrb" && len(a) == 4:
+		return execC16BadReader(a[1], int(c16U(a[2])), parseBytes(a[3]))
 	case a[0] == "accd" && len(a) >= 3:
 		h := c16Hash(a[1])
 		if h == nil {
@@ -994,6 +1018,8 @@ func genC16(g *gen) {
 	c16GenReaders(g)
 	// A5. callers that reuse their memory
 	c16GenAlias(g)
+	// A6. the algebraic hashers (MiMC, Poseidon2): tampering verdicts, leaves the hasher cannot absorb
+	c16GenAlg(g)
 	// B. Vortex
 	VN := g.budget(130, 1100)
 	for n := 1; n <= VN; n++ {
